@@ -190,6 +190,7 @@ public:
 
 	bool emptyQueue() const
 	{
+		EVENTPP_VERIF_POINT("q.empty.list.racy_r");
 		return queueList.empty() && (queueEmptyCounter.load(std::memory_order_acquire) == 0);
 	}
 	
@@ -200,6 +201,7 @@ public:
 
 			{
 				std::lock_guard<Mutex> queueListLock(queueListMutex);
+				EVENTPP_VERIF_POINT("q.swap.cs.w");
 				std::swap(queueList, tempList);
 			}
 
@@ -209,6 +211,7 @@ public:
 				}
 
 				std::lock_guard<Mutex> queueListLock(freeListMutex);
+				EVENTPP_VERIF_POINT("q.recycle.cs.w");
 				freeList.splice(freeList.end(), tempList);
 			}
 		}
@@ -225,6 +228,7 @@ public:
 
 			{
 				std::lock_guard<Mutex> queueListLock(queueListMutex);
+				EVENTPP_VERIF_POINT("q.swap.cs.w");
 				std::swap(queueList, tempList);
 			}
 
@@ -238,6 +242,7 @@ public:
 				}
 
 				std::lock_guard<Mutex> queueListLock(freeListMutex);
+				EVENTPP_VERIF_POINT("q.recycle.cs.w");
 				freeList.splice(freeList.end(), tempList);
 				
 				return true;
@@ -258,6 +263,7 @@ public:
 
 			{
 				std::lock_guard<Mutex> queueListLock(queueListMutex);
+				EVENTPP_VERIF_POINT("q.takefront.cs.w");
 				if(! queueList.empty()) {
 					tempList.splice(tempList.end(), queueList, queueList.begin());
 				}
@@ -272,6 +278,7 @@ public:
 				item.clear();
 
 				std::lock_guard<Mutex> queueListLock(freeListMutex);
+				EVENTPP_VERIF_POINT("q.recycle.cs.w");
 				freeList.splice(freeList.end(), tempList);
 				
 				return true;
@@ -294,6 +301,7 @@ public:
 
 			{
 				std::lock_guard<Mutex> queueListLock(queueListMutex);
+				EVENTPP_VERIF_POINT("q.swap.cs.w");
 				std::swap(queueList, tempList);
 			}
 
@@ -321,11 +329,13 @@ public:
 
 				if (! tempList.empty()) {
 					std::lock_guard<Mutex> queueListLock(queueListMutex);
+					EVENTPP_VERIF_POINT("q.putback.cs.w");
 					queueList.splice(queueList.begin(), tempList);
 				}
 
 				if(! idleList.empty()) {
 					std::lock_guard<Mutex> queueListLock(freeListMutex);
+					EVENTPP_VERIF_POINT("q.recycle.cs.w");
 					freeList.splice(freeList.end(), idleList);
 					
 					return true;
@@ -349,6 +359,7 @@ public:
 
 			{
 				std::lock_guard<Mutex> queueListLock(queueListMutex);
+				EVENTPP_VERIF_POINT("q.swap.cs.w");
 				std::swap(queueList, tempList);
 			}
 
@@ -376,11 +387,13 @@ public:
 
 				if (! tempList.empty()) {
 					std::lock_guard<Mutex> queueListLock(queueListMutex);
+					EVENTPP_VERIF_POINT("q.putback.cs.w");
 					queueList.splice(queueList.begin(), tempList);
 				}
 
 				if(! idleList.empty()) {
 					std::lock_guard<Mutex> queueListLock(freeListMutex);
+					EVENTPP_VERIF_POINT("q.recycle.cs.w");
 					freeList.splice(freeList.end(), idleList);
 					
 					return true;
@@ -424,6 +437,7 @@ public:
 	{
 		if(! queueList.empty()) {
 			std::lock_guard<Mutex> queueListLock(queueListMutex);
+			EVENTPP_VERIF_POINT("q.peek.cs.r");
 			
 			if(! queueList.empty()) {
 				*queuedEvent = queueList.front().get();
@@ -441,6 +455,7 @@ public:
 
 			{
 				std::lock_guard<Mutex> queueListLock(queueListMutex);
+				EVENTPP_VERIF_POINT("q.takefront.cs.w");
 
 				if(! queueList.empty()) {
 					tempList.splice(tempList.end(), queueList, queueList.begin());
@@ -452,6 +467,7 @@ public:
 				tempList.front().clear();
 
 				std::lock_guard<Mutex> queueListLock(freeListMutex);
+				EVENTPP_VERIF_POINT("q.recycle.cs.w");
 				freeList.splice(freeList.end(), tempList);
 
 				return true;
@@ -504,6 +520,7 @@ protected:
 		if(! freeList.empty()) {
 			{
 				std::lock_guard<Mutex> queueListLock(freeListMutex);
+				EVENTPP_VERIF_POINT("q.reuse.cs.w");
 				if(! freeList.empty()) {
 					tempList.splice(tempList.end(), freeList, freeList.begin());
 				}
@@ -518,6 +535,7 @@ protected:
 		it->set(std::move(item));
 
 		std::lock_guard<Mutex> queueListLock(queueListMutex);
+		EVENTPP_VERIF_POINT("q.enqueue.cs.w");
 		queueList.splice(queueList.end(), tempList, it);
 	}
 
